@@ -5,7 +5,8 @@ Two kinds of cases:
       processes (byte-identity), compiled (gcc -std=c99 -pedantic-errors / g++ -std=c++11, syntax only), and searched for every foreign declaration
       (verbatim, original order).  Output rows: the foreign declarations and the copies of context-generic structs in the order they occur in the
       processed C header ([0 id] / [1 id context]) — the block-level Coq model (coq/model/BindgenHeader.v, id 118) predicts exactly that sequence.
- '18 <stale> | argv, one row of character codes per argument' (stale = 1: the output paths already hold an older, longer header)   (command-line cases): the REAL cglue-bindgen binary is run with that argv in a scratch
+ '18 <mode> | argv, one row of character codes per argument' (mode 1: the output paths already hold an older, longer header; 2: cbindgen fails; 3: cbindgen prints
+      a header of ~150 KB, far more than a pipe holds)   (command-line cases): the REAL cglue-bindgen binary is run with that argv in a scratch
       directory where `cbindgen` and `rustup` are stubs that record their arguments and print a canned header; output rows: what the Coq model
       of main.rs's split (id 18) prints: [config given] ; config ; [+nightly] ; [output given] ; output ; arguments handed to cbindgen."""
 import hashlib
@@ -223,6 +224,8 @@ def one_header(idx, line):
 
 # ------------------------------------------------------------------------------------------------ command-line cases
 CANNED = "#include <stdarg.h>\n#include <stdbool.h>\n#include <stdint.h>\n#include <stdlib.h>\n\ntypedef struct Pair {\n    uint32_t a;\n    uint64_t b;\n} Pair;\n\nint32_t user_drop(struct Pair *p);\n"
+# header field 2 = 3: cbindgen prints a LARGE header (well above the capacity of a pipe): the tool has to keep reading while cbindgen writes
+CANNED_BIG = CANNED + "".join("\ntypedef struct Filler%d {\n    uint32_t tag;\n    uint64_t payload[4];\n    struct Pair pair;\n} Filler%d;\n" % (k, k) for k in range(1400))
 STUB = "#!/bin/sh\necho \"$0\" >> \"$STUB_LOG\"\nfor a in \"$@\"; do echo \"$a\" >> \"$STUB_LOG\"; done\ncat \"$STUB_HEADER\"\n"
 
 
@@ -244,7 +247,7 @@ def one_cli(idx, line):
             # header field 2 = 2: cbindgen itself FAILS (prints nothing, exit status 3)
             open(p, "w").write(STUB if mode != "2" else "#!/bin/sh\necho \"$0\" >> \"$STUB_LOG\"\necho 'ERROR: Parsing crate' >&2\nexit 3\n")
             os.chmod(p, 0o755)
-        open(os.path.join(d, "canned.h"), "w").write(CANNED)
+        open(os.path.join(d, "canned.h"), "w").write(CANNED_BIG if mode == "3" else CANNED)
         open(os.path.join(d, "cfg1.toml"), "w").write('function_prefix = "one"\n')
         open(os.path.join(d, "cfg2.toml"), "w").write('function_prefix = "two"\n')
         env = dict(vlib.ENV)
@@ -261,7 +264,10 @@ def one_cli(idx, line):
         before = snap()
         pre0 = argv[:argv.index("--")] if "--" in argv else argv
         cfgs = [b for a, b in zip(pre0, pre0[1:]) if a in ("-c", "--config")]
-        p = subprocess.run([_built["bin"]] + argv, cwd=d, capture_output=True, text=True, env=env, timeout=60)
+        try:
+            p = subprocess.run([_built["bin"]] + argv, cwd=d, capture_output=True, text=True, env=env, timeout=12)
+        except subprocess.TimeoutExpired:
+            return "-9 # fails=the-tool-does-not-terminate:no-processed-header-after-12s-for-a-cbindgen-output-of-%d-bytes" % len(CANNED_BIG if mode == "3" else CANNED)
         log = open(os.path.join(d, "log")).read().split("\n")[:-1] if os.path.exists(os.path.join(d, "log")) else []
         if mode == "2":
             # no processed header can be produced: the tool must say so (non-zero exit status) and must leave every file as it was
@@ -412,6 +418,9 @@ def gen_cases(rng, tier):
     for i in range(n):
         mal = (i % 8 == 7)
         lines.append(cli_case(rng.fork("cli%d" % i), mal))
+        if i % 6 == 1:      # a cbindgen output far larger than a pipe buffer (header field 2 = 3)
+            bl = cli_case(rng.fork("clib%d" % i), False)
+            lines.append("18 3 |" + bl.split("|", 1)[1])
         if i % 5 == 0:      # the failure paths: cbindgen fails (header field 2 = 2); a configuration file that does not exist
             fl = cli_case(rng.fork("clif%d" % i), False)
             lines.append("18 2 |" + fl.split("|", 1)[1])
